@@ -59,6 +59,8 @@ type Raft struct {
 	// spec view of plog (PersistentLog macro applied to the committed writes) and of respCh (last committed write)
 	PlogSpec []tla.Value
 	LastResp tla.Value
+	// last committed write to leaderTimeout (the spec variable starts as TRUE and is only ever set to LeaderTimeoutReset)
+	LeaderTimeout tla.Value
 	// per-instance scheduling weight
 	Weight map[*sched.Instance]int
 	nodeOf map[*sched.Instance]int
@@ -235,6 +237,7 @@ func NewRaft(o RaftOpts, choose func(in *sched.Instance, id string, k uint) uint
 		}
 		return r.Sim.Ask(fmt.Sprintf("pct:%d:%s", p, what), 2) == 1
 	}
+	r.LeaderTimeout = tla.ModuleTRUE
 	r.net = &fifoNet{links: map[string]*queue{}, fromNode: map[string]int{}, cap: o.MailboxCap, Isolated: map[int]bool{}}
 	r.txn = append(r.txn, r.net)
 	closing := func() bool { return r.Sim.Closing }
@@ -507,6 +510,9 @@ func NewRaft(o RaftOpts, choose func(in *sched.Instance, id string, k uint) uint
 				if _, tracked := r.Shadow[node-1][w.Name]; tracked && w.Prefix != "" && len(w.Indices) == 1 {
 					r.Shadow[node-1][w.Name] = w.Value
 				}
+				if w.Name == "leaderTimeout" && w.Prefix != "" {
+					r.LeaderTimeout = w.Value.StripVClock()
+				}
 				if w.Name == "plog" && w.Prefix != "" && len(w.Indices) == 1 {
 					val := w.Value.StripVClock()
 					cur := r.PlogSpec[node-1]
@@ -524,6 +530,31 @@ func NewRaft(o RaftOpts, choose func(in *sched.Instance, id string, k uint) uint
 		}
 	}
 	return r
+}
+
+// Queued lists every message waiting in a node's mailbox (all links, cut off or not), for rendering the spec's bag.
+func (r *Raft) Queued(to int) []tla.Value {
+	var ks []string
+	p := fmt.Sprintf("%03d<", to)
+	for k := range r.net.links {
+		if len(k) >= 4 && k[:4] == p {
+			ks = append(ks, k)
+		}
+	}
+	sort.Strings(ks)
+	var out []tla.Value
+	for _, k := range ks {
+		out = append(out, r.net.links[k].items...)
+	}
+	return out
+}
+
+// ChanItems lists what is queued in a server's appendEntriesCh ("append") or becomeLeaderCh ("become").
+func (r *Raft) ChanItems(which string, s int) []tla.Value {
+	if which == "append" {
+		return r.appendCh[s].items
+	}
+	return r.becomeCh[s].items
 }
 
 // Submit queues a client request (a record [type |-> "put"/"get", key |-> k, value |-> v]).
